@@ -62,9 +62,26 @@ ASSUMPTIONS = [
     '(property) is read as a field; write() is analysed for bytes data (str data only through the encode stub)',
     'C12: SFTPLimits held by a handler are >= 1 (defaults 16 KiB; proved preserved by request_limits); '
     'SFTPClientFile is constructed with block_size >= -1 (documented domain)',
-    'C12: not covered: the recursive driver _copy/_begin_copy beyond parameter normalisation and the file branch of '
-    '_copy (paths, directory and symlink branches: C13), SFTPServer.read/write (local file I/O), the Windows '
-    'and fallback variants of _request_ranges, LocalFile, SFTPClient.remote_copy itself, termination of iter()',
+    'C12: _SFTPFileCopier.run is specified pointwise for the destination: every byte the copy has to transfer (data '
+    'bytes of a sparse source, every byte below the announced size otherwise) is written exactly once at its own '
+    'offset, nothing beyond the announced size, and the destination extends to the announced size; for sparse '
+    'copies these clauses are conditional on no early end-of-file indication (the property demands an error for '
+    'an early end only of non-sparse transfers); unwritten positions of the freshly truncated (\'wb\') destination '
+    'read back as zeros (OS / server contract)',
+    'C12: SFTPClientFile.read(size >= 0) has "up to size" semantics on the single-READ path (documented; like '
+    'os.read); read() to the end of the file (size < 0 / None) must return everything: obligation '
+    'read-to-end-of-file-returns-all-of-it',
+    'C12: copy-data on the server (_process_copy_data): SFTPServer.read returns at most the requested number of '
+    'bytes; a shorter answer ends the copy and the reply is still OK (treated as end of the source file; an '
+    'SFTPServer subclass whose read() answers short before the end makes a remote copy succeed truncated - low, '
+    'recorded here, not asserted), and the client counts the announced length of a remote copy, not the moved one',
+    'C12: Python file objects behind LocalFile / SFTPServer (seek, read, write) and the OS are assumed to position '
+    'and transfer as documented; SFTPClient.open is analysed for numeric pflags (string modes pass through '
+    '_mode_to_pflags: not covered), SFTPClient.remote_copy for open file objects (path arguments are opened first: '
+    'not covered)',
+    'C12: not covered: the directory and symlink-creation branches of _copy and all path handling (C13), '
+    '_begin_copy beyond parameter normalisation, SFTPClient.open56, the Windows and fallback variants of '
+    '_request_ranges, termination of iter() and of the copy-data loop',
 ]
 
 TILE = 'tuple[int,int]'
@@ -80,6 +97,8 @@ PIO_FIELDS = {
     'ghost_failed': 'bool',      # a block of the current batch failed with a non-EOF error
     'ghost_cur_off': 'int', 'ghost_cur_size': 'int', 'ghost_cur_count': 'int', 'ghost_cur_result': 'any',
     'ghost_cur_open': 'bool',    # a completed block has been taken and not yet yielded
+    'ghost_ysum': 'int',         # bytes reported by the blocks yielded in this iter() activation
+    'ghost_eofk': 'bool',        # an end-of-file indication was received in this iter() activation
 }
 PIO_CLASSES = {'PIO': PIO_FIELDS}
 
@@ -182,7 +201,8 @@ def start_loop_inv(c):
         f('_offset') + f('_bytes_left') == e('_offset') + e('_bytes_left'), f('_offset') >= e('_offset'),
         z3.Implies(z3.Length(e('_pending')) <= e('_max_requests'),
                    z3.Length(f('_pending')) <= f('_max_requests')),
-        z3.Length(f('_pending')) >= z3.Length(e('_pending')))
+        z3.Length(f('_pending')) >= z3.Length(e('_pending')),
+        REQ.tot(f('_pending')) + f('_bytes_left') == REQ.tot(e('_pending')) + e('_bytes_left'))
 
 
 start_tasks = Spec(
@@ -208,6 +228,8 @@ start_tasks = Spec(
             z3.Length(c.old('_pending')) <= c.old('_max_requests'),
             z3.Length(c.new('_pending')) <= c.new('_max_requests'))),
         ('nothing-withdrawn', lambda c: z3.Length(c.new('_pending')) >= z3.Length(c.old('_pending'))),
+        ('outstanding-bytes-preserved', lambda c: REQ.tot(c.new('_pending')) + c.new('_bytes_left') ==
+         REQ.tot(c.old('_pending')) + c.old('_bytes_left')),
     ])
 start_tasks.no_replay = True
 
@@ -251,16 +273,17 @@ def result_stub(cx):
                 'ghost_cur_open': VBool(True)}
         if zero:
             # a zero-length answer is the end-of-file indication of SFTPFileProtocol.read
-            sets.update({'ghost_eof': VBool(True), 'ghost_eof_min': new_min})
+            sets.update({'ghost_eof': VBool(True), 'ghost_eof_min': new_min, 'ghost_eofk': VBool(True)})
         outs.append(Out(ret=VTuple([o, n, cnt, res]), sets=sets,
                         assume=unfold + ([] if zero else [cnt.z >= 1, cnt.z <= n.z])))
-    outs.append(Out(exc=VExc('SFTPEOFError'), sets={'ghost_eof': VBool(True), 'ghost_eof_min': new_min}))
+    outs.append(Out(exc=VExc('SFTPEOFError'), assume=unfold,
+                    sets={'ghost_eof': VBool(True), 'ghost_eof_min': new_min, 'ghost_eofk': VBool(True)}))
     outs.append(Out(exc=VExc('SFTPError'), sets={'ghost_failed': VBool(True)}))
     outs.append(Out(exc=VExc('OSError'), sets={'ghost_failed': VBool(True)}))
     return outs
 
 
-result_stub.modifies = CUR + ('ghost_eof', 'ghost_eof_min', 'ghost_failed')
+result_stub.modifies = CUR + ('ghost_eof', 'ghost_eof_min', 'ghost_failed', 'ghost_eofk')
 
 
 def yield_stub(cx):
@@ -274,10 +297,11 @@ def yield_stub(cx):
     cx.require('yielded-offset-not-below-the-requested-range', cx.selff('ghost_cur_off').z >= cx.selff('ghost_lo').z)
     i = cx.selff('ghost_i').z
     add = TL.b2i(TL.covers(cx.selff('ghost_cur_off').z, cx.selff('ghost_cur_count').z, i))
-    return [Out(sets={'ghost_ycnt': VInt(cx.selff('ghost_ycnt').z + add), 'ghost_cur_open': VBool(False)})]
+    return [Out(sets={'ghost_ycnt': VInt(cx.selff('ghost_ycnt').z + add), 'ghost_cur_open': VBool(False),
+                      'ghost_ysum': VInt(cx.selff('ghost_ysum').z + cx.selff('ghost_cur_count').z)})]
 
 
-yield_stub.modifies = ('ghost_ycnt', 'ghost_cur_open')
+yield_stub.modifies = ('ghost_ycnt', 'ghost_cur_open', 'ghost_ysum')
 
 
 def exc_append_stub(cx):
@@ -306,22 +330,29 @@ def exc_len(c):
     return z3.IntVal(len(v.items)) if isinstance(v, VList) else z3.Length(v.z)
 
 
-def iter_core(f, rem_in, rem_end, rem_bad, rem_hi):
+def iter_core(f, rem_in, rem_end, rem_bad, rem_hi, rem_tot):
     """the scheduler invariant for the rigid position; rem_* count the completed blocks not yet handled"""
     i = f('ghost_i')
     cover = REQ.cnt_in(f('_pending'), i) + rem_in + f('ghost_ycnt') + tail_in(f)
+    outstanding = f('ghost_ysum') + REQ.tot(f('_pending')) + rem_tot + f('_bytes_left')
     return z3.And(
         sane(f), f('_max_requests') >= 1, f('ghost_ycnt') >= 0,
         cover <= in_range(f),                               # nothing delivered twice or from outside the range
         # below the lowest EOF position nothing is lost (unless a block failed: then iter() is going to raise)
         z3.Or(f('ghost_failed'), z3.Implies(below_eof(f), cover == in_range(f))),
         order_inv(f, rem_end), sizes_inv(f, rem_bad), ends_inv(f, rem_hi),
-        z3.Not(f('ghost_cur_open')))
+        z3.Not(f('ghost_cur_open')),
+        # byte accounting of this activation: yielded + outstanding + unscheduled == requested, until an end-of-file
+        # indication drops a (non-empty) block; without one nothing at all is lost
+        f('ghost_ysum') >= 0,
+        z3.Or(f('ghost_failed'), z3.If(f('ghost_eofk'), outstanding < f('ghost_hi') - f('ghost_lo'),
+                                       outstanding == f('ghost_hi') - f('ghost_lo'))),
+        z3.Or(f('ghost_failed'), f('ghost_eofk'), cover == in_range(f)))
 
 
 def iter_loop1_inv(c):
     f = c.new
-    return z3.And(iter_core(f, 0, 0, 0, 0), z3.Not(f('ghost_failed')),
+    return z3.And(iter_core(f, 0, 0, 0, 0, 0), z3.Not(f('ghost_failed')),
                   z3.Length(f('_pending')) <= f('_max_requests'),
                   z3.Or(f('_bytes_left') == 0, z3.Length(f('_pending')) >= f('_max_requests')))
 
@@ -331,7 +362,8 @@ def iter_loop2_inv(c):
     D, k = c.extra['iter'].z, c.extra['i']
     i, lo = f('ghost_i'), f('ghost_lo')
     S = TL.suffix(D, k)
-    return z3.And(iter_core(f, REQ.cnt_in(S, i), REQ.cnt_end(S, i), REQ.cnt_bad(S, lo), REQ.cnt_end(S, f('ghost_hi'))),
+    return z3.And(iter_core(f, REQ.cnt_in(S, i), REQ.cnt_end(S, i), REQ.cnt_bad(S, lo), REQ.cnt_end(S, f('ghost_hi')),
+                            REQ.tot(S)),
                   (exc_len(c) > 0) == f('ghost_failed'),
                   z3.Length(f('_pending')) + z3.Length(D) - k <= f('_max_requests'))
 
@@ -352,12 +384,20 @@ ITER_STUBS = {
 }
 
 
+# what a run() / iter() of a scheduler object may change (declared on the run Specs: frame obligations there,
+# havoc of exactly these fields at the call sites)
+SCHED_MODIFIES = ['_offset', '_bytes_left', '_pending', 'ghost_ycnt', 'ghost_eof', 'ghost_eof_min', 'ghost_failed',
+                  'ghost_cur_off', 'ghost_cur_size', 'ghost_cur_count', 'ghost_cur_result', 'ghost_cur_open',
+                  'ghost_ysum', 'ghost_eofk']
+
+
 def iter_pre(f):
     """precondition of iter() over a field accessor f (also demanded at the run() / iter() call sites)"""
     return z3.And(f('_block_size') >= 1, f('_bytes_left') >= 0, f('_max_requests') >= 1,
                   f('_pending') == z3.Empty(REQ.SEQ),
                   f('ghost_lo') == f('_offset'), f('ghost_hi') == f('_offset') + f('_bytes_left'),
-                  f('ghost_ycnt') == 0, z3.Not(f('ghost_failed')), z3.Not(f('ghost_cur_open')))
+                  f('ghost_ycnt') == 0, z3.Not(f('ghost_failed')), z3.Not(f('ghost_cur_open')),
+                  f('ghost_ysum') == 0, z3.Not(f('ghost_eofk')))
 
 
 def iter_requires(c):
@@ -390,6 +430,12 @@ pio_iter = Spec(
         ('failed-block-never-ends-in-success', lambda c: z3.Not(c.new('ghost_failed'))),
         ('everything-scheduled-and-answered',
          lambda c: z3.And(c.new('_bytes_left') == 0, z3.Length(c.new('_pending')) == 0)),
+        # without an end-of-file indication the activation delivered the whole range: every position exactly once
+        # and as many bytes as requested; with one, strictly fewer bytes (what the copier's total check relies on)
+        ('whole-range-delivered-unless-eof', lambda c: z3.If(
+            c.new('ghost_eofk'), c.new('ghost_ysum') < c.new('ghost_hi') - c.new('ghost_lo'),
+            z3.And(c.new('ghost_ysum') == c.new('ghost_hi') - c.new('ghost_lo'),
+                   c.new('ghost_ycnt') == in_range(c.new)))),
     ],
     always=[('no-byte-twice-none-outside-the-range',
              lambda c: z3.And(c.new('ghost_ycnt') >= 0, c.new('ghost_ycnt') <= in_range(c.new)))],
@@ -588,6 +634,7 @@ reader_run = Spec(
                        lemmas=reader_loop_lemmas)},
     # a freshly constructed reader: scheduler range == requested range, reassembly base == its start
     requires=lambda c: z3.And(iter_pre(c.old), c.old('_start') == c.old('_offset')), returns='bytes',
+    modifies=SCHED_MODIFIES,
     ensures=[('result-holds-the-source-bytes-at-their-offsets', lambda c: reader_facts(
         c.new, ITEM.cnt_in(c.calls('self.iter')[0]['ret'].z, c.new('ghost_i')),
         ITEM.cnt_end(c.calls('self.iter')[0]['ret'].z, c.new('ghost_i')), c.result))],
@@ -645,6 +692,7 @@ writer_run = Spec(
     # a freshly constructed writer: scheduler range == the whole data, placed at _start
     requires=lambda c: z3.And(iter_pre(c.old), c.old('_start') == c.old('_offset'),
                               c.old('_bytes_left') == z3.Length(c.old('_data'))),
+    modifies=SCHED_MODIFIES,
     ensures=[('drains-the-scheduler-once', lambda c: z3.BoolVal(len(c.events('iter')) == 1))],
     # a failed block surfaces as the error of the whole write (never swallowed)
     raises={'SFTPError': True, 'OSError': True})
@@ -656,7 +704,8 @@ COPIER_FIELDS = dict(
     PIO_FIELDS, _sparse='bool', _srcfs='obj:FS', _dstfs='obj:FS', _srcpath='bytes', _dstpath='bytes',
     _src='opt[obj:File]', _dst='opt[obj:File]', _bytes_copied='int', _total_bytes='int',
     _progress_handler='opt[opaque:Progress]',
-    ghost_sum='int')         # bytes reported copied by all blocks of all ranges so far
+    ghost_sum='int',         # bytes reported copied by all blocks of all ranges so far
+    ghost_wcnt='int', ghost_dst_gt='bool', ghost_lostall='int')      # see _SFTPFileCopier.run below
 COPIER_CLASSES = {'Copier': COPIER_FIELDS, 'FS': {'supports_remote_copy': 'bool', 'ghost_is_client': 'bool'},
                   'File': {}}
 
@@ -679,22 +728,44 @@ copier_run_task.runtime_class = '_SFTPFileCopier'
 
 
 # ------------------------------------------------------------------ _SFTPFileCopier.run
+# Pointwise again: ghost_i is the rigid byte position.  ghost_wcnt counts the writes of source bytes to the
+# destination that cover it, ghost_dst_gt says that some write to the destination ended after it (the destination
+# is longer than ghost_i), ghost_lostall sums the bytes of requested ranges that were not delivered because the
+# source indicated end-of-file early.
 def fs_open_stub(which):
     def stub(cx):
+        """srcfs.open(srcpath, 'rb', block_size=0) / dstfs.open(dstpath, 'wb', block_size=0): the copier's own
+        scheduler does the blocking, positions are explicit ('wb', never append), the right path on each side"""
+        a = cx.args
+        path = cx.selff('_srcpath' if which == 'src' else '_dstpath')
+        mode = 'rb' if which == 'src' else 'wb'
+        ok = z3.BoolVal(False)
+        if len(a) == 2 and isinstance(a[1], VStr) and 'block_size' in cx.kwargs:
+            ok = z3.And(cx.ex.veq(cx.st, a[0], path), a[1].z == z3.StringVal(mode), cx.kwargs['block_size'].z == 0)
+        cx.require(f'{which}-opened-by-its-path-mode-{mode}-unbuffered', ok)
         f = cx.fresh('obj:File', which)
         return [Out(ret=f, event=('open', (which,))), Out(exc=VExc('SFTPError')), Out(exc=VExc('OSError'))]
     stub.modifies = ()
     return stub
 
 
+def whole_file(cx):
+    a = cx.args
+    return z3.And(z3.BoolVal(len(a) == 2), a[0].z == 0, a[1].z == cx.selff('_total_bytes').z) if len(a) == 2 \
+        else z3.BoolVal(False)
+
+
 def ranges_stub(cx):
-    """self._src.request_ranges(0, total): the data ranges of the source (SFTPFileProtocol.request_ranges).
-    Per item: offset >= 0 and length >= 0 (uint64 fields on the wire; for a local file this is what the
-    obligations on _request_ranges establish - see the recorded finding on its negative length)"""
+    """self._src.request_ranges(0, total): the data ranges of the source (SFTPFileProtocol.request_ranges), as
+    proved for _request_ranges / SFTPClientFile.request_ranges: every data byte of the window is in exactly one
+    range, no other byte is; per item 0 <= offset, 0 <= length, offset + length <= end of the window"""
+    cx.require('ranges-requested-for-the-whole-announced-size', whole_file(cx))
+    total, i = cx.selff('_total_bytes').z, cx.selff('ghost_i').z
     R = cx.fresh('seq[' + TILE + ']', 'ranges')
     R.raises = ['SFTPError', 'OSError']
-    R.elem_assume = lambda k: z3.And(REQ.off(R.z[k]) >= 0, REQ.size(R.z[k]) >= 0)
-    return [Out(ret=R, event=('request_ranges', tuple(cx.args)))]
+    R.elem_assume = lambda k: z3.And(REQ.off(R.z[k]) >= 0, REQ.size(R.z[k]) >= 0,
+                                     REQ.off(R.z[k]) + REQ.size(R.z[k]) <= total)
+    return [Out(ret=R, assume=[REQ.cnt_in(R.z, i) == data_in(i, 0, total)], event=('request_ranges', tuple(cx.args)))]
 
 
 ranges_stub.modifies = ()
@@ -703,42 +774,87 @@ ranges_stub.modifies = ()
 def nonsparse_stub(cx):
     """the local generator _request_nonsparse_range(offset, length): yields exactly (offset, length)
     (verified below on its own body: copier_nonsparse_gen)"""
-    R = VSeq(z3.Unit(REQ.mk(cx.args[0].z, cx.args[1].z)), TILE)
-    # definitional instance: the sizes of a one-element list sum to that element's size
-    return [Out(ret=R, assume=[REQ.tot(R.z) == cx.args[1].z])]
+    cx.require('non-sparse-range-is-the-whole-announced-size', whole_file(cx))
+    o, n = cx.args[0].z, cx.args[1].z
+    R = VSeq(z3.Unit(REQ.mk(o, n)), TILE)
+    # definitional instances for a one-element list
+    return [Out(ret=R, assume=[REQ.tot(R.z) == n, REQ.cnt_in(R.z, cx.selff('ghost_i').z) ==
+                               TL.b2i(TL.covers(o, n, cx.selff('ghost_i').z))])]
 
 
 nonsparse_stub.modifies = ()
+COPIER_GHOST = ('ghost_sum', 'ghost_wcnt', 'ghost_dst_gt', 'ghost_lostall')
 
 
 def copier_iter_stub(cx):
-    """callee view of _SFTPParallelIO.iter() for the copier: checks iter's precondition at the call, returns the
-    sequence of (offset, datalen) items (or an error after a prefix); on exhaustion everything was scheduled and
-    answered (proved on iter).  ghost_sum accumulates the bytes the blocks report as copied."""
+    """callee view of one _SFTPParallelIO.iter() activation of the copier, for the range (o, n) =
+    (_offset, _bytes_left) at the call; iter's precondition is checked here.  Restated from what is proved on iter
+    (whole-range-delivered-unless-eof, no-byte-twice-none-outside-the-range, everything-scheduled-and-answered) and
+    on _SFTPFileCopier.run_task (a yielded block (offset, datalen) was read from the source and written to the
+    destination at that offset): the items' sizes sum to n - lost with lost >= 0; w = number of blocks covering the
+    rigid position, at most one, exactly one for every position of the range when lost == 0."""
     g = lambda n_: cx.selff(n_).z
-    cx.require('iter-requires', z3.And(g('_block_size') >= 1, g('_bytes_left') >= 0, g('_max_requests') >= 1,
+    o, n, i = g('_offset'), g('_bytes_left'), g('ghost_i')
+    cx.require('iter-requires', z3.And(g('_block_size') >= 1, n >= 0, g('_max_requests') >= 1,
                                        g('_pending') == z3.Empty(REQ.SEQ)))
     R = cx.fresh('seq[' + TILE + ']', 'copied')
     R.raises = ['SFTPError', 'OSError']
     off = cx.fresh('int', 'offset_after')
+    lost, w = cx.fresh('int', 'lost').z, cx.fresh('int', 'w').z
+    inr = TL.b2i(TL.covers(o, n, i))
     return [Out(ret=R, sets={'_bytes_left': VInt(0), '_offset': off,
-                             'ghost_sum': VInt(g('ghost_sum') + REQ.tot(R.z))},
-                assume=REQ.ax_empty(z3.IntVal(0), z3.IntVal(0)), event=('iter', ()))]
+                             'ghost_sum': VInt(g('ghost_sum') + REQ.tot(R.z)),
+                             'ghost_lostall': VInt(g('ghost_lostall') + lost),
+                             'ghost_wcnt': VInt(g('ghost_wcnt') + w),
+                             'ghost_dst_gt': VBool(z3.Or(g('ghost_dst_gt'), w >= 1))},
+                assume=REQ.ax_empty(z3.IntVal(0), z3.IntVal(0)) + [
+                    lost >= 0, REQ.tot(R.z) + lost == n, w >= 0, w <= inr, z3.Implies(lost == 0, w == inr)],
+                event=('iter', ()))]
 
 
-copier_iter_stub.modifies = ('_bytes_left', '_offset', 'ghost_sum')
+copier_iter_stub.modifies = ('_bytes_left', '_offset') + COPIER_GHOST
 
 
 def remote_copy_stub(cx):
-    """SFTPClient.remote_copy(src, dst, src_offset, length, dst_offset): the server copies the range"""
+    """SFTPClient.remote_copy(src, dst, src_offset, length, dst_offset) (verified below): the server copies the
+    range from the source handle to the destination handle (copy-data; that the server moves all `length` bytes is
+    its contract, see _process_copy_data)"""
     a = cx.args
+    i = cx.selff('ghost_i').z
     cx.require('remote-copy-keeps-the-position', a[2].z == a[4].z)
-    return [Out(osets=[(cx.ex.self_ref, 'ghost_sum', VInt(cx.selff('ghost_sum').z + a[3].z))],
+    cx.require('remote-copy-from-the-source-to-the-destination', z3.And(
+        cx.ex.veq(cx.st, a[0], cx.selff('_src')), cx.ex.veq(cx.st, a[1], cx.selff('_dst'))))
+    cov = TL.covers(a[4].z, a[3].z, i)
+    me = cx.ex.self_ref
+    return [Out(osets=[(me, 'ghost_sum', VInt(cx.selff('ghost_sum').z + a[3].z)),
+                       (me, 'ghost_wcnt', VInt(cx.selff('ghost_wcnt').z + TL.b2i(cov))),
+                       (me, 'ghost_dst_gt', VBool(z3.Or(cx.selff('ghost_dst_gt').z, cov)))],
                 event=('remote_copy', tuple(a))),
             Out(exc=VExc('SFTPError'))]
 
 
-remote_copy_stub.modifies = ('ghost_sum',)
+remote_copy_stub.modifies = COPIER_GHOST
+
+
+def dst_write_stub(cx):
+    """self._dst.write(data, offset) issued by run() itself (not a copied block): only zero bytes, inside the
+    announced size, and only where no source byte has been written yet (giving the destination its length)"""
+    a = cx.args
+    i = cx.selff('ghost_i').z
+    ok = z3.BoolVal(False)
+    gt = cx.selff('ghost_dst_gt').z
+    if len(a) == 2 and isinstance(a[0], VBytes) and isinstance(a[1], VInt):
+        d, o = a[0].z, a[1].z
+        cov = TL.covers(o, z3.Length(d), i)
+        ok = z3.And(o >= 0, o + z3.Length(d) <= cx.selff('_total_bytes').z,
+                    z3.Implies(cov, z3.And(d[i - o] == 0, cx.selff('ghost_wcnt').z == 0)))
+        gt = z3.Or(gt, z3.And(z3.Length(d) > 0, o + z3.Length(d) > i, i >= 0))
+    cx.require('extension-write-is-zeros-inside-the-size-and-precedes-the-data', ok)
+    return [Out(ret=cx.fresh('int', 'written'), sets={}, osets=[(cx.ex.self_ref, 'ghost_dst_gt', VBool(gt))]),
+            Out(exc=VExc('SFTPError')), Out(exc=VExc('OSError'))]
+
+
+dst_write_stub.modifies = ('ghost_dst_gt',)
 
 
 def is_client_stub(cx):
@@ -749,15 +865,29 @@ def is_client_stub(cx):
 is_client_stub.modifies = ()
 
 
+def copier_frame(f):
+    return z3.And(f('_block_size') >= 1, f('_max_requests') >= 1, f('_pending') == z3.Empty(REQ.SEQ))
+
+
+def copier_point(f, R, k):
+    """the pointwise state of the copy after the first k ranges"""
+    i = f('ghost_i')
+    return z3.And(
+        f('_bytes_copied') == f('ghost_sum'), f('ghost_lostall') >= 0,
+        f('ghost_sum') + f('ghost_lostall') == REQ.tot(TL.prefix(R, k)),
+        z3.Implies(f('ghost_lostall') == 0, f('ghost_wcnt') == REQ.cnt_in(TL.prefix(R, k), i)),
+        f('ghost_wcnt') >= 0, z3.Implies(f('ghost_wcnt') >= 1, f('ghost_dst_gt')),
+        z3.Implies(f('ghost_dst_gt'), z3.And(i >= 0, i < f('_total_bytes'))))
+
+
 def copier_loop3_inv(c):
     f = c.new
     R, k = c.extra['iter'].z, c.extra['i']
+    # (the loop cut havocs everything the iter() stub in the loop header may set: carried over unchanged)
+    same = [f(n_) == c.at_entry(n_) for n_ in ('ghost_wcnt', 'ghost_dst_gt', 'ghost_lostall', 'ghost_sum',
+                                                '_bytes_left')]
     return z3.And(f('_bytes_copied') + REQ.tot(R) - REQ.tot(TL.prefix(R, k)) == f('ghost_sum'),
-                  copier_frame(f))
-
-
-def copier_frame(f):
-    return z3.And(f('_block_size') >= 1, f('_max_requests') >= 1, f('_pending') == z3.Empty(REQ.SEQ))
+                  copier_frame(f), *same)
 
 
 def copier_loop3_lemmas(c):
@@ -770,10 +900,28 @@ def copier_loop3_lemmas(c):
     return REQ.ax_snoc_at(R, k0, z, z)
 
 
+def copier_ranges_lemmas(c):
+    R, k0, k = c.extra['iter'].z, c.extra['i0'], c.extra['i']
+    i, z = c.new('ghost_i'), z3.IntVal(0)
+    if z3.is_int_value(k0):
+        return REQ.ax_empty(i, z)
+    if k is k0:
+        return [Prove(TL.prefix(R, k0) == R, 'ranges[:len(ranges)] == ranges')]
+    return REQ.ax_snoc_at(R, k0, i, z)
+
+
 def copier_loop1_inv(c):
     f = c.new
     R, k = c.extra['iter'].z, c.extra['i']
-    return z3.And(f('_bytes_copied') == f('ghost_sum'), f('ghost_sum') == REQ.tot(TL.prefix(R, k)))
+    return z3.And(copier_point(f, R, k), f('ghost_lostall') == 0,
+                  z3.Implies(c.at_entry('ghost_dst_gt'), f('ghost_dst_gt')))      # the destination never shrinks
+
+
+def copier_loop2_inv(c):
+    f = c.new
+    R, k = c.extra['iter'].z, c.extra['i']
+    return z3.And(copier_point(f, R, k), copier_frame(f),
+                  z3.Implies(c.at_entry('ghost_dst_gt'), f('ghost_dst_gt')))      # the destination never shrinks
 
 
 COPIER_STUBS = {
@@ -781,7 +929,7 @@ COPIER_STUBS = {
     'self._progress_handler': noop('progress'),
     'self._src.request_ranges': ranges_stub, '_request_nonsparse_range': nonsparse_stub,
     'self._srcfs.remote_copy': remote_copy_stub, 'isinstance': is_client_stub,
-    'self.iter': copier_iter_stub,
+    'self.iter': copier_iter_stub, 'self._dst.write': dst_write_stub,
     'self._src.close': noop('close'), 'self._dst.close': noop('close'),
     'setattr': noop('setattr'),
 }
@@ -790,11 +938,19 @@ COPIER_STUBS = {
 def copier_requires(c):
     f = c.old
     return z3.And(c.is_none(c.oldv('_src')), c.is_none(c.oldv('_dst')), f('_bytes_copied') == 0,
-                  f('ghost_sum') == 0, f('_total_bytes') >= 0, copier_frame(f))
+                  f('ghost_sum') == 0, f('ghost_wcnt') == 0, z3.Not(f('ghost_dst_gt')), f('ghost_lostall') == 0,
+                  f('_total_bytes') >= 0, copier_frame(f))
 
 
 def opened(c):
     return len(c.events('open'))
+
+
+def source_bytes_here(f):
+    """1 iff the rigid position holds a byte the copy has to transfer: a data byte of the source for a sparse copy,
+    any byte below the announced size otherwise"""
+    i, total = f('ghost_i'), f('_total_bytes')
+    return z3.If(f('_sparse'), data_in(i, 0, total), TL.b2i(TL.covers(0, total, i)))
 
 
 def copier_spec(label, setup):
@@ -803,18 +959,29 @@ def copier_spec(label, setup):
         stubs=COPIER_STUBS, setup=setup, cases=[(label, {})],
         loops={
             1: LoopSpec(header='for (offset, length) in ranges', invariant=copier_loop1_inv,
-                        lemmas=copier_loop3_lemmas),
-            2: LoopSpec(header='for (self._offset, self._bytes_left) in ranges',
-                        invariant=lambda c: z3.And(c.new('_bytes_copied') == c.new('ghost_sum'),
-                                                   copier_frame(c.new))),
+                        lemmas=copier_ranges_lemmas),
+            2: LoopSpec(header='for (self._offset, self._bytes_left) in ranges', invariant=copier_loop2_inv,
+                        lemmas=copier_ranges_lemmas),
             3: LoopSpec(header='for (_, datalen) in self.iter()', invariant=copier_loop3_inv,
                         lemmas=copier_loop3_lemmas),
         },
         requires=copier_requires,
+        modifies=['_src', '_dst', '_bytes_copied', '_offset', '_bytes_left'] + list(COPIER_GHOST),
         ensures=[
             # a non-sparse copy that returns normally has copied exactly the announced number of bytes
             ('non-sparse-success-means-all-bytes-copied',
-             lambda c: z3.Implies(z3.Not(c.new('_sparse')), c.new('ghost_sum') == c.new('_total_bytes'))),
+             lambda c: z3.Implies(z3.Not(c.new('_sparse')), z3.And(c.new('ghost_sum') == c.new('_total_bytes'),
+                                                                   c.new('ghost_lostall') == 0))),
+            # unless the source indicated end-of-file early (sparse copies do not check that), every byte the copy
+            # has to transfer was written to the destination exactly once, at its own offset, and no other position was
+            ('every-source-byte-written-exactly-once-at-its-offset',
+             lambda c: z3.Implies(c.new('ghost_lostall') == 0, c.new('ghost_wcnt') == source_bytes_here(c.new))),
+            # the destination is as long as the source, also when the source ends in a hole
+            ('destination-extends-to-the-announced-size',
+             lambda c: z3.Implies(z3.And(c.new('ghost_lostall') == 0, c.new('ghost_i') >= 0,
+                                         c.new('ghost_i') < c.new('_total_bytes')), c.new('ghost_dst_gt'))),
+            ('nothing-written-beyond-the-announced-size',
+             lambda c: z3.Implies(c.new('ghost_dst_gt'), c.new('ghost_i') < c.new('_total_bytes'))),
         ],
         always=[('both-files-closed-if-opened', lambda c: z3.BoolVal(len(c.events('close')) == opened(c)))],
         raises={'SFTPFailure': lambda c: z3.And(z3.Not(c.new('_sparse')),
@@ -889,8 +1056,9 @@ def construct(cls, init_getter, name, ghost_zero=()):
             o.event = (name, tuple(cx.args))
             o.assume = list(o.assume) + [
                 g('ghost_lo') == new['_offset'].z, g('ghost_hi') == new['_offset'].z + new['_bytes_left'].z,
-                g('ghost_ycnt') == 0, z3.Not(g('ghost_failed')), z3.Not(g('ghost_cur_open'))] + \
-                [g(n_) == 0 for n_ in ghost_zero]
+                g('ghost_ycnt') == 0, z3.Not(g('ghost_failed')), z3.Not(g('ghost_cur_open')),
+                g('ghost_ysum') == 0, z3.Not(g('ghost_eofk'))] + \
+                [(g(n_) == 0 if z3.is_int(g(n_)) else z3.Not(g(n_))) for n_ in ghost_zero]
             res.append(o)
         return res
     stub.modifies = ()
@@ -966,10 +1134,18 @@ def read_post(c):
         return int_is(v, size)
     if direct:
         a = call['args']
-        req = z3.And(c.eq(a[0], c.oldv('_handle')), int_is(a[1], eff), size_is(a[2]))
+        # a single READ is only good for a request the server can answer in one reply: not larger than the block
+        # size / the server's read limit (larger requests must go through the parallel reader, which continues
+        # short reads), unless parallel I/O was disabled (block_size=0)
+        mr, _mw = limits_of(c)
+        sent = opt_val(a[2])[1]
+        one_reply = z3.Or(c.old('read_len') == 0, z3.And(sent <= c.old('read_len'), sent <= mr))
+        req = z3.And(c.eq(a[0], c.oldv('_handle')), int_is(a[1], eff), size_is(a[2]), one_reply)
     else:
         a = ctor[0]['args']
-        req = z3.And(a[0].z == c.old('read_len'), a[1].z == c.old('_max_requests'),
+        mr, _mw = limits_of(c)
+        req = z3.And(z3.Or(a[0].z == c.old('read_len'), z3.And(c.old('read_len') == 0, a[0].z == mr)),
+                     a[1].z == c.old('_max_requests'),
                      c.eq(a[3], c.oldv('_handle')), int_is(a[4], eff), size_is(a[5]))
     if call.get('exc') is not None:          # SFTPEOFError: nothing read, position unchanged
         moved = offset_unchanged(c)
@@ -981,6 +1157,18 @@ def read_post(c):
     res = c.result_v
     returned = res.z == data if isinstance(res, VBytes) else z3.BoolVal(bool(calls_of(c, 'data.decode')))
     return z3.And(z3.Not(none), size_ok, req, moved, returned)
+
+
+def read_to_eof_post(c):
+    """read() with size < 0 / None promises "all data up to the end of the file": a single READ whose (possibly
+    short) answer is returned as it is does not keep that promise - the answer must be complete, or the request has
+    to go through the parallel reader (which continues short reads up to the end-of-file indication)"""
+    direct = calls_of(c, 'self._handler.read')
+    ends = calls_of(c, 'self._end')
+    if not ends or not direct or direct[0].get('exc') is not None:
+        return z3.BoolVal(True)
+    data = direct[0]['ret'].items[0].z
+    return z3.Length(data) == opt_val(direct[0]['args'][2])[1]
 
 
 def limits_of(c, new=False):
@@ -1029,7 +1217,8 @@ file_read = Spec(
            'self._handler.read': handler_read_stub,
            'data.decode': may_raise(ret('str', 'decoded', event='decode'), 'UnicodeDecodeError')},
     requires=file_inv,
-    ensures=[('position-advances-by-the-bytes-read', read_post)],
+    ensures=[('position-advances-by-the-bytes-read', read_post),
+             ('read-to-end-of-file-returns-all-of-it', read_to_eof_post)],
     # (UnicodeDecodeError is a ValueError: listed first)
     raises={'UnicodeDecodeError': True,
             'ValueError': lambda c: z3.And(c.is_none(c.oldv('_handle')), offset_unchanged(c)),
@@ -1740,7 +1929,7 @@ def copy_file_post(c):
 copy_file = Spec(
     PROP, 'sftp', 'SFTPClient._copy', self_class='CopyClient', classes=COPY_CLASSES, params=COPY_PARAMS,
     cases=[('file-branch', {})], region=copy_file_branch,
-    stubs={'_SFTPFileCopier': construct('Copier', lambda: copier_init, 'copier', ghost_zero=('ghost_sum',)),
+    stubs={'_SFTPFileCopier': construct('Copier', lambda: copier_init, 'copier', ghost_zero=COPIER_GHOST),
            '_SFTPFileCopier().run': contract_stub(lambda: copier_run)},
     # block size / window as normalised by _begin_copy (proved there) and handed down unchanged by the recursion;
     # a size attribute is a uint64 on the wire / a stat size locally
@@ -1751,3 +1940,319 @@ copy_file = Spec(
                                                    z3.BoolVal(len(calls_of(c, '_SFTPFileCopier')) == 0)),
             'SFTPError': True, 'OSError': True})
 copy_file.no_replay = True
+
+
+# ------------------------------------------------------------------ SFTPClient._copy: whole function, non-directory
+# Scope: the source is not a directory (requires / the stat stub's answer; directories and names are C13's).
+# What is decided here: which attributes announce the size (the ones re-read when a symlink is followed), and that
+# a failed transfer is never swallowed (it propagates, or goes to the caller's error_handler exactly once).
+FT_DIRECTORY, FT_SYMLINK = 2, 3          # FILEXFER_TYPE_DIRECTORY / FILEXFER_TYPE_SYMLINK
+
+
+def copy_stat_stub(cx):
+    a = cx.fresh('obj:SrcAttrs', 'statattrs')
+    t = cx.ex.get_field(cx.st, a, 'type').z
+    n, v = opt_val(cx.ex.get_field(cx.st, a, 'size'))
+    return [Out(ret=a, assume=[t != FT_DIRECTORY, z3.Or(n, v >= 0)], event=('stat', tuple(cx.args))),
+            Out(exc=VExc('SFTPError')), Out(exc=VExc('OSError'))]
+
+
+copy_stat_stub.modifies = ()
+
+
+def copy_errors(c):
+    """stubbed calls of this path that raised a transfer error which _copy's own handler has to deal with
+    (SFTPOpUnsupported of setstat is handled by the inner try: preserving symlink attributes is optional)"""
+    return [x for x in c.calls() if x.get('exc') is not None and x['key'] != 'error_handler' and
+            not (x['key'] == 'dstfs.setstat' and x['exc'].cls == 'SFTPOpUnsupported')]
+
+
+def copy_whole_post(c):
+    calls = c.calls()
+    ctor = [k for k, x in enumerate(calls) if x['key'] == '_SFTPFileCopier']
+    errs = copy_errors(c)
+    eh = c.truthy(c.argv('error_handler'), c.old_state)
+    handled = len(c.events('error_handler'))
+    # (_copy's own SFTPOpUnsupported for remote_only without server support goes the same way)
+    own = z3.And(z3.BoolVal(not errs and handled == 1 and not ctor), c.arg('remote_only'),
+                 z3.Not(c.old('supports_remote_copy')))
+    conj = [z3.BoolVal(len(errs) <= 1), z3.Or(z3.BoolVal(handled == len(errs)), own)]
+    if errs or handled:
+        conj.append(eh)
+    if ctor:
+        a = calls[ctor[0]]['args']
+        restat = [x for x in calls[:ctor[0]] if x['key'] == 'srcfs.stat']
+        attrs = restat[0]['ret'] if restat else c.argv('srcattrs')
+        n, v = opt_val(c.oldv('size', attrs) if not restat else c.newv('size', attrs))
+        at, _ = opt_val(VNone), None
+        conj += [z3.BoolVal(len(ctor) == 1 and len(a) == 9), int_is(a[2], z3.If(n, 0, v)),
+                 # attributes are re-read exactly when a symlink is followed
+                 z3.BoolVal(bool(restat)) == z3.And(c.arg('follow_symlinks'),
+                                                    c.old('type', c.argv('srcattrs')) == FT_SYMLINK)]
+        names = ['block_size', 'max_requests', None, 'sparse', 'srcfs', 'dstfs', 'srcpath', 'dstpath',
+                 'progress_handler']
+        conj += [c.eq(a[k], c.argv(nm)) for k, nm in enumerate(names) if nm]
+    return z3.And(conj)
+
+
+def copy_whole_raise(c):
+    """an error leaves _copy only if there is no error_handler to take it (or the handler itself raised)"""
+    eh = c.truthy(c.argv('error_handler'), c.old_state)
+    handler_raised = any(x['key'] == 'error_handler' and x.get('exc') is not None for x in c.calls())
+    return z3.Or(z3.Not(eh), z3.BoolVal(handler_raised))
+
+
+def error_handler_stub(cx):
+    return [Out(event=('error_handler', tuple(cx.args))), Out(exc=VExc('SFTPError'))]
+
+
+error_handler_stub.modifies = ()
+
+copy_whole = Spec(
+    PROP, 'sftp', 'SFTPClient._copy', self_class='CopyClient',
+    classes=dict(COPY_CLASSES, CopyClient={'supports_remote_copy': 'bool', 'version': 'int'}), params=COPY_PARAMS,
+    cases=[('non-directory', {})],
+    stubs={'_SFTPFileCopier': construct('Copier', lambda: copier_init, 'copier', ghost_zero=COPIER_GHOST),
+           '_SFTPFileCopier().run': contract_stub(lambda: copier_run),
+           'srcfs.stat': copy_stat_stub,
+           'srcfs.readlink': may_raise(ret('bytes', 'target'), 'SFTPError', 'OSError'),
+           'dstfs.symlink': may_raise(noop('symlink'), 'SFTPError', 'OSError'),
+           'SFTPAttrs': ret('any', 'newattrs'),
+           'dstfs.setstat': may_raise(noop('setstat'), 'SFTPOpUnsupported', 'SFTPError', 'OSError'),
+           'setattr': noop('setattr'), 'error_handler': error_handler_stub},
+    requires=lambda c: z3.And(c.arg('block_size') >= 1, c.arg('max_requests') >= 1,
+                              z3.Or(src_size(c)[0], src_size(c)[1] >= 0),
+                              c.old('type', c.argv('srcattrs')) != FT_DIRECTORY),
+    ensures=[('announced-size-from-the-followed-attrs-and-errors-never-swallowed', copy_whole_post)],
+    raises={'SFTPError': copy_whole_raise, 'OSError': copy_whole_raise})
+copy_whole.no_replay = True
+
+
+# ------------------------------------------------------------------ the remaining small functions on the byte path
+def calls_in_order(c, *expected):
+    """the stubbed calls of this path are exactly these (key, args...) in this order"""
+    calls = c.calls()
+    if len(calls) != len(expected):
+        return z3.BoolVal(False)
+    conj = [z3.BoolVal(True)]
+    for x, (key, *args) in zip(calls, expected):
+        if x['key'] != key or len(x['args']) != len(args):
+            return z3.BoolVal(False)
+        conj += [c.eq(a, e) for a, e in zip(x['args'], args)]
+    return z3.And(conj)
+
+
+IOERR2 = ('OSError',)
+LF_CLASSES = {'LocalFile': {'_file': 'obj:PyFile'}, 'PyFile': {}}
+
+localfile_read = Spec(
+    PROP, 'sftp', 'LocalFile.read', self_class='LocalFile', classes=LF_CLASSES,
+    params={'size': 'int', 'offset': 'int'},
+    stubs={'self._file.seek': may_raise(ret('int', 'pos'), *IOERR2), 'self._file.read': may_raise(ret('bytes', 'data'), *IOERR2)},
+    ensures=[('seeks-to-the-offset-then-reads-size-bytes', lambda c: z3.And(
+        calls_in_order(c, ('self._file.seek', c.argv('offset')), ('self._file.read', c.argv('size'))),
+        c.eq(c.result_v, c.calls()[-1]['ret'])))],
+    raises={'OSError': True})
+localfile_read.no_replay = True
+
+localfile_write = Spec(
+    PROP, 'sftp', 'LocalFile.write', self_class='LocalFile', classes=LF_CLASSES,
+    params={'data': 'bytes', 'offset': 'int'},
+    stubs={'self._file.seek': may_raise(ret('int', 'pos'), *IOERR2), 'self._file.write': may_raise(ret('int', 'n'), *IOERR2)},
+    ensures=[('seeks-to-the-offset-then-writes-the-data', lambda c: z3.And(
+        calls_in_order(c, ('self._file.seek', c.argv('offset')), ('self._file.write', c.argv('data'))),
+        c.eq(c.result_v, c.calls()[-1]['ret'])))],
+    raises={'OSError': True})
+localfile_write.no_replay = True
+
+localfile_ranges = Spec(
+    PROP, 'sftp', 'LocalFile.request_ranges', self_class='LocalFile', classes=LF_CLASSES,
+    params={'offset': 'int', 'length': 'int'},
+    stubs={'_request_ranges': ret('opaque:AsyncIter', 'ranges')},
+    ensures=[('ranges-of-its-own-file-for-the-given-window', lambda c: z3.And(
+        calls_in_order(c, ('_request_ranges', c.oldv('_file'), c.argv('offset'), c.argv('length'))),
+        c.eq(c.result_v, c.calls()[-1]['ret'])))])
+localfile_ranges.no_replay = True
+
+SRV_CLASSES = {'SrvImpl': {}, 'PyFile': {}}
+server_read = Spec(
+    PROP, 'sftp', 'SFTPServer.read', self_class='SrvImpl', classes=SRV_CLASSES,
+    params={'file_obj': 'obj:PyFile', 'offset': 'int', 'size': 'int'},
+    stubs={'file_obj.seek': may_raise(ret('int', 'pos'), *IOERR2), 'file_obj.read': may_raise(ret('bytes', 'data'), *IOERR2)},
+    ensures=[('seeks-to-the-offset-then-reads-size-bytes', lambda c: z3.And(
+        calls_in_order(c, ('file_obj.seek', c.argv('offset')), ('file_obj.read', c.argv('size'))),
+        c.eq(c.result_v, c.calls()[-1]['ret'])))],
+    raises={'OSError': True})
+server_read.no_replay = True
+
+server_write = Spec(
+    PROP, 'sftp', 'SFTPServer.write', self_class='SrvImpl', classes=SRV_CLASSES,
+    params={'file_obj': 'obj:PyFile', 'offset': 'int', 'data': 'bytes'},
+    stubs={'file_obj.seek': may_raise(ret('int', 'pos'), *IOERR2), 'file_obj.write': may_raise(ret('int', 'n'), *IOERR2)},
+    ensures=[('seeks-to-the-offset-then-writes-the-data', lambda c: z3.And(
+        calls_in_order(c, ('file_obj.seek', c.argv('offset')), ('file_obj.write', c.argv('data'))),
+        c.eq(c.result_v, c.calls()[-1]['ret'])))],
+    raises={'OSError': True})
+server_write.no_replay = True
+
+file_end = Spec(
+    PROP, 'sftp', 'SFTPClientFile._end', self_class='EFile', classes={'EFile': {}, 'Attrs': {'size': 'opt[int]'}},
+    stubs={'self.stat': may_raise(ret('obj:Attrs', 'attrs'), 'SFTPError', 'ValueError')},
+    ensures=[('end-is-the-size-the-server-reports-(0-if-none)', lambda c: (lambda n, v: int_is(
+        c.result_v, z3.If(n, 0, v)))(*opt_val(c.newv('size', c.calls('self.stat')[0]['ret']))))],
+    raises={'SFTPError': True, 'ValueError': True})
+file_end.no_replay = True
+
+# ---- copy-data: client side
+handler_copy_data = Spec(
+    PROP, 'sftp', 'SFTPClientHandler.copy_data', self_class='CHandler3',
+    classes={'CHandler3': {'_supports_copy_data': 'bool'}},
+    params={'read_from_handle': 'bytes', 'read_from_offset': 'int', 'read_from_length': 'int',
+            'write_to_handle': 'bytes', 'write_to_offset': 'int'},
+    stubs={'self._make_request': mk_request_stub},
+    ensures=[('copy-data-carries-both-handles-offsets-and-the-length', lambda c: z3.And(
+        c.old('_supports_copy_data'), request_is_bytes(
+            c, b'copy-data', wire_string(c.arg('read_from_handle')), be(z3.IntVal(8), c.arg('read_from_offset')),
+            be(z3.IntVal(8), c.arg('read_from_length')), wire_string(c.arg('write_to_handle')),
+            be(z3.IntVal(8), c.arg('write_to_offset')))))],
+    raises={'OverflowError': lambda c: z3.Not(z3.And(uint_ok(c.arg('read_from_offset'), 8),
+                                                     uint_ok(c.arg('read_from_length'), 8),
+                                                     uint_ok(c.arg('write_to_offset'), 8))),
+            'SFTPOpUnsupported': lambda c: z3.And(z3.Not(c.old('_supports_copy_data')),
+                                                  z3.BoolVal(len(c.calls('self._make_request')) == 0)),
+            'SFTPError': True})
+handler_copy_data.no_replay = True
+
+
+def request_is_bytes(c, name, *fields):
+    calls = c.calls('self._make_request')
+    if len(calls) != 1 or len(calls[0]['args']) != len(fields) + 1:
+        return z3.BoolVal(False)
+    a = calls[0]['args']
+    return z3.And([a[0].z == bytes_const(name)] + [x.z == e for x, e in zip(a[1:], fields)])
+
+
+client_remote_copy = Spec(
+    PROP, 'sftp', 'SFTPClient.remote_copy', self_class='RClient',
+    classes={'RClient': {'_handler': 'obj:RCHandler'}, 'RCHandler': {}, 'CFile': {'handle': 'bytes'}},
+    # analysed for open file objects (the copier's use); path arguments are opened 'rb' / 'wb' first
+    params={'src': 'obj:CFile', 'dst': 'obj:CFile', 'src_offset': 'int', 'src_length': 'int', 'dst_offset': 'int'},
+    globals={'PurePath': VTag('class:PurePath')},
+    stubs={'self._handler.copy_data': may_raise(noop('copy_data'), 'SFTPError', 'OverflowError')},
+    ensures=[('copies-from-the-source-handle-to-the-destination-handle-at-the-given-offsets', lambda c: calls_in_order(
+        c, ('self._handler.copy_data', c.oldv('handle', c.argv('src')), c.argv('src_offset'), c.argv('src_length'),
+            c.oldv('handle', c.argv('dst')), c.argv('dst_offset'))))],
+    raises={'SFTPError': True, 'OverflowError': True})
+client_remote_copy.no_replay = True
+
+# ---- SFTPClient.open: the append flag decides whether the file object tracks a position
+FXF_APPEND_BIT = 4       # SSH_FXF_APPEND
+
+
+def client_open_post(c):
+    made = c.calls('SFTPClientFile')
+    op = c.calls('self._handler.open')
+    cp = c.calls('self.compose_path')
+    if len(made) != 1 or len(op) != 1 or len(cp) != 1 or len(made[0]['args']) != 7 or len(op[0]['args']) != 3:
+        return z3.BoolVal(False)
+    a, o = made[0]['args'], op[0]['args']
+    pflags = c.arg('pflags_or_mode')
+    return z3.And(
+        c.eq(o[0], cp[0]['ret']), o[1].z == pflags, c.eq(a[1], op[0]['ret']),
+        # no file position is tracked exactly for files opened in append mode
+        c.truthy(a[2]) == ((pflags / FXF_APPEND_BIT) % 2 == 1),
+        c.eq(a[3], c.argv('encoding')), c.eq(a[5], c.argv('block_size')), c.eq(a[6], c.argv('max_requests')))
+
+
+client_open = Spec(
+    PROP, 'sftp', 'SFTPClient.open', self_class='OClient', classes={'OClient': {'_handler': 'obj:OHandler'}, 'OHandler': {}},
+    # analysed for numeric pflags (string modes go through _mode_to_pflags first: not covered)
+    params={'path': 'bytes', 'pflags_or_mode': 'int', 'attrs': 'any', 'encoding': 'opt[str]', 'errors': 'str',
+            'block_size': 'int', 'max_requests': 'int'},
+    stubs={'self.compose_path': ret('bytes', 'fullpath'),
+           'self._handler.open': may_raise(ret('bytes', 'handle'), 'SFTPError'),
+           'SFTPClientFile': ret('opaque:ClientFile', 'fileobj')},
+    requires=lambda c: c.arg('pflags_or_mode') >= 0,
+    ensures=[('opens-the-path-and-tracks-a-position-unless-appending', client_open_post)],
+    raises={'SFTPError': True})
+client_open.no_replay = True
+
+
+# ---- copy-data: server side (the whole data movement of a remote copy on one server)
+CD_CLASSES = {'SHandlerCD': {'_version': 'int', '_file_handles': 'dict[bytes,obj:SrvFile]', '_server': 'obj:Server',
+                             'ghost_started': 'bool', 'ghost_next_r': 'int', 'ghost_rd_off': 'int',
+                             'ghost_rd_data': 'bytes'},
+              'SrvFile': {}, 'Server': {}, 'Pkt': {}}
+CD_PKT = dict(PKT_STUBS, **{'packet.get_uint64': ret('int', 'u64_field', assume=lambda cx, v: v.z >= 0)})
+
+
+CD_BLOCK = z3.Int('c12_copy_data_block_size')
+
+
+def cd_fields(st):
+    """(read handle, r0, L0, write handle, w0) as decoded from the request"""
+    strs = [x for x in st.calls if x['key'] == 'packet.get_string']
+    u64 = [x for x in st.calls if x['key'] == 'packet.get_uint64']
+    return strs[0]['ret'].z, u64[0]['ret'].z, u64[1]['ret'].z, strs[1]['ret'].z, u64[2]['ret'].z
+
+
+def cd_file(cx, handle_z):
+    return cx.ex.map_value(cx.st, cx.selff('_file_handles'), handle_z)
+
+
+def cd_read_stub(cx):
+    """SFTPServer.read(src, offset, size) inside copy-data: from the source handle's file, each read starting
+    where the previous one ended (the first at the requested offset); returns at most size bytes"""
+    a = cx.args
+    rh, r0, _l0, _wh, _w0 = cd_fields(cx.st)
+    nxt = z3.If(cx.selff('ghost_started').z, cx.selff('ghost_next_r').z, r0)
+    cx.require('reads-the-source-handle-contiguously', z3.And(cx.ex.veq(cx.st, a[0], cd_file(cx, rh)), a[1].z == nxt))
+    d = cx.fresh('bytes', 'chunk')
+    me = cx.ex.self_ref
+    return [Out(ret=d, assume=[z3.Length(d.z) <= a[2].z],
+                osets=[(me, 'ghost_started', VBool(True)), (me, 'ghost_rd_off', a[1]), (me, 'ghost_rd_data', d),
+                       (me, 'ghost_next_r', VInt(a[1].z + z3.Length(d.z)))]),
+            Out(exc=VExc('OSError')), Out(exc=VExc('SFTPError'))]
+
+
+cd_read_stub.modifies = ('ghost_started', 'ghost_rd_off', 'ghost_rd_data', 'ghost_next_r')
+
+
+def cd_write_stub(cx):
+    """SFTPServer.write(dst, offset, data) inside copy-data: the chunk just read, to the destination handle's file, at
+    the same distance from the requested write offset as the chunk is from the requested read offset"""
+    a = cx.args
+    _rh, r0, _l0, wh, w0 = cd_fields(cx.st)
+    cx.require('writes-the-chunk-just-read-to-the-destination-handle-at-the-matching-offset', z3.And(
+        cx.selff('ghost_started').z, cx.ex.veq(cx.st, a[0], cd_file(cx, wh)),
+        a[1].z - w0 == cx.selff('ghost_rd_off').z - r0, a[2].z == cx.selff('ghost_rd_data').z))
+    return [Out(ret=cx.fresh('int', 'written')), Out(exc=VExc('OSError')), Out(exc=VExc('SFTPError'))]
+
+
+cd_write_stub.modifies = ()
+
+
+def cd_inv(c):
+    f = c.new
+    _rh, r0, l0, _wh, w0 = cd_fields(c.new_state)
+    ro, wo, rl, te = c.local('read_from_offset'), c.local('write_to_offset'), c.local('read_from_length'), \
+        c.local('read_to_end')
+    return z3.And(wo - w0 == ro - r0, ro >= r0, te == (l0 == 0),
+                  ro == z3.If(f('ghost_started'), f('ghost_next_r'), r0),
+                  z3.Implies(z3.Not(te), z3.And(rl == l0 - (ro - r0), rl >= 0)))
+
+
+process_copy_data = Spec(
+    PROP, 'sftp', 'SFTPServerHandler._process_copy_data', self_class='SHandlerCD', classes=CD_CLASSES,
+    params={'packet': 'obj:Pkt'},
+    stubs=dict(CD_PKT, **{'self._server.read': cd_read_stub, 'self._server.write': cd_write_stub}),
+    loops={1: LoopSpec(header='read_to_end or read_from_length', invariant=cd_inv)},
+    # proved for every positive block size (the module constant 256 KiB is one instance; a symbolic size also keeps
+    # the solver from building quarter-megabyte sequence models)
+    globals={'_COPY_DATA_BLOCK_SIZE': VInt(CD_BLOCK)},
+    requires=lambda c: z3.And(z3.Not(c.old('ghost_started')), CD_BLOCK >= 1),
+    ensures=[('request-decoded-once', lambda c: z3.BoolVal(len(c.calls('packet.get_string')) == 2 and
+                                                            len(c.calls('packet.get_uint64')) == 3))],
+    raises={'SFTPInvalidHandle': lambda c: z3.BoolVal(len(c.calls('self._server.read')) == 0),
+            'SFTPBadMessage': True, 'SFTPError': True, 'OSError': True})
+process_copy_data.no_replay = True
